@@ -495,6 +495,9 @@ func (u *U) build2(s *State, rt reflect.Type, gt *ast.Type, path string, h uint6
 	default: // scalar
 		if force != nil && force.Str != "" {
 			b, _ := json.Marshal(force.Str)
+			if gt.NamedType == "Code" && force.Str == "NULL" {
+				return setScalar(rt, force.Str, h), V{K: "null"}
+			}
 			return setScalar(rt, force.Str, h), V{K: "leaf", Text: string(b)}
 		}
 		return u.scalar(rt, gt.NamedType, h)
@@ -584,6 +587,16 @@ func (u *U) scalar(rt reflect.Type, gqlName string, h uint64) (reflect.Value, V)
 		s := strs[n]
 		if gqlName == "ID" {
 			s = "id" + strconv.FormatInt(n, 10)
+		}
+		if gqlName == "Code" && (h>>24)%4 == 0 {
+			// the probe's function-pair scalar: its marshaler answers graphql.Null for this value
+			v.SetString("NULL")
+			if ptr {
+				p := reflect.New(t)
+				p.Elem().Set(v)
+				return p, V{K: "null"}
+			}
+			return v, V{K: "null"}
 		}
 		v.SetString(s)
 		b, _ := json.Marshal(s)
